@@ -1,5 +1,4 @@
 import JP.Driver
-import JP.Props.C07spec
 import JP.Impl.Den
 
 /-! # Property C07 — theorems (see DESIGN.md §6) -/
